@@ -115,7 +115,7 @@ type scenario struct {
 // ErrServerClosed and the port refuses connections. Skipped (not a verdict) when loopback is unavailable.
 func runTCP(c *Case, r *mon.Rec, rng *rand.Rand) {
 	dev := simdev.New(uint64(c.Seed), "srv")
-	s := &server.Server{OnErrorFunc: func(error) {}}
+	s := &server.Server{OnErrorFunc: func(error) {}, WriteTimeout: 2 * time.Second} // (the default 50 ms write timeout is scheduling noise on a loaded machine)
 	addrCh := make(chan net.Addr, 1)
 	s.OnServeFunc = func(a net.Addr) { addrCh <- a }
 	ctx, cancel := context.WithCancel(context.Background())
@@ -197,7 +197,7 @@ func runTCP(c *Case, r *mon.Rec, rng *rand.Rand) {
 // away). If it returns nil the serve call must end with ErrServerClosed and nothing may be accepted afterwards.
 func runAtStart(c *Case, r *mon.Rec, rng *rand.Rand) {
 	l := srvx.NewMemListener()
-	s := &server.Server{OnErrorFunc: func(error) {}}
+	s := &server.Server{OnErrorFunc: func(error) {}, WriteTimeout: 2 * time.Second} // (the default 50 ms write timeout is scheduling noise on a loaded machine)
 	dev := simdev.New(uint64(c.Seed), "srv")
 	var shutErr error
 	shutDone := make(chan struct{})
@@ -287,7 +287,7 @@ func runRestart(c *Case, r *mon.Rec, rng *rand.Rand) {
 		}
 		return devH.Handle(ctx, req)
 	})
-	s := &server.Server{OnErrorFunc: func(error) {}}
+	s := &server.Server{OnErrorFunc: func(error) {}, WriteTimeout: 2 * time.Second} // (the default 50 ms write timeout is scheduling noise on a loaded machine)
 	l1 := srvx.NewMemListener()
 	ctx1, cancel1 := context.WithCancel(context.Background())
 	ret1 := make(chan error, 1)
@@ -460,7 +460,7 @@ func run(ci any, r *mon.Rec) {
 			sc.rejected[fmt.Sprintf("client-%d", i)] = true
 		}
 	}
-	s := &server.Server{}
+	s := &server.Server{WriteTimeout: 2 * time.Second} // (the default 50 ms write timeout is scheduling noise on a loaded machine)
 	if c.Mask&1 != 0 {
 		s.OnServeFunc = func(addr net.Addr) { _ = addr.String() }
 	}
